@@ -12,6 +12,7 @@ from . import core
 from .core import Check, exc_code, zlist
 
 IMPORTS = ["Base.Prelude", "Tree.Forest", "Tree.Build", "Tree.Corr"]
+FILE_IMPORTS = ["Base.Prelude", "Psd.Codec", "Psd.Model", "Tree.Forest", "Tree.Build", "Tree.Corr", "Tree.File", "Tree.FileCorr"]
 
 # deciding tag codes, same numbering as coq/theories/Tree/Build.v
 DECIDING_NAMES = [
@@ -55,7 +56,10 @@ def _shared_dummy():
 _DUMMY = None
 
 
-def make_record(desc, idx, clip=0, name=None):
+REAL_PAYLOAD = {20: (), 21: (4,), 22: (128,)}   # INVERT (EmptyElement), POSTERIZE / THRESHOLD (ShortIntegerElement): writable
+
+
+def make_record(desc, idx, clip=0, name=None, real=False):
     from psd_tools.constants import Clipping, Tag
     from psd_tools.psd.layer_and_mask import LayerRecord
     from psd_tools.psd.tagged_blocks import SectionDividerSetting, TaggedBlock
@@ -67,8 +71,13 @@ def make_record(desc, idx, clip=0, name=None):
     tb = r.tagged_blocks
     allt = _tags()
     # deciding blocks first or last, as the descriptor lists them (dict order must not matter)
+    if real:
+        tb.set_data(Tag.LAYER_ID, idx)
     for t in tags:
         key = allt[t]
+        if real:
+            tb.set_data(key, *REAL_PAYLOAD[t])
+            continue
         tb[key] = TaggedBlock(key=key, data=_Dummy() if name is None else _shared_dummy())
     if s >= 0:
         tb[Tag.SECTION_DIVIDER_SETTING] = TaggedBlock(key=Tag.SECTION_DIVIDER_SETTING, data=SectionDividerSetting(kind=s))
@@ -144,6 +153,87 @@ def impl_open(descs, clips=None, names=None):
     flat = _build_record_tree(psd)
     out = [0, len(psd._layers)] + ser_tree(psd, rid) + [-7] + [rid.get(id(r), -5) if r is not None else -1 for r in flat[0]]
     return out, psd, records, channels
+
+
+def file_case(descs):
+    """records with real payloads -> PSD.write -> bytes -> PSDImage.open; identities are the 'lyid' values"""
+    from psd_tools import PSDImage
+    from psd_tools.api.psd_image import _build_record_tree
+    from psd_tools.constants import Tag
+
+    records = [make_record(d, i, 0, None, real=True) for i, d in enumerate(descs)]
+    data, _ = make_psd(records)
+    buf = io.BytesIO()
+    data.write(buf)
+    bs = buf.getvalue()
+    try:
+        psd = PSDImage.open(io.BytesIO(bs))
+    except Exception as e:  # noqa
+        return bs, [exc_code(e)]
+    rid = {id(r): r.tagged_blocks.get_data(Tag.LAYER_ID, -1) for r, _ in psd._record._iter_layers()}
+    flat = _build_record_tree(psd)
+    out = [0, len(psd._layers)] + ser_tree(psd, rid) + [-7] + [rid.get(id(r), -5) if r is not None else -1 for r in flat[0]]
+    return bs, out
+
+
+def gen_file_docs(ck):
+    thorough = ck.tier == "thorough"
+    rng = ck.rng
+
+    def deco(tok):
+        d = decorate(ck, tok, force_plain=True)
+        tags = [t for t in (20, 21, 22) if rng.random() < 0.25]
+        rng.shuffle(tags)
+        return (d[0], d[1], d[2], tags)
+
+    for n in range(0, (6 if thorough else 5) + 1):
+        for seq in itertools.product("LBE", repeat=n):
+            yield [deco(t) for t in seq]
+    for _ in range(1500 if thorough else 150):
+        seq, d = [], 0
+        for _k in range(rng.randint(3, 30)):
+            c = rng.random()
+            if c < 0.3 and d < 8:
+                seq.append("B"); d += 1
+            elif c < 0.55 and d > 0:
+                seq.append("E"); d -= 1
+            else:
+                seq.append("L")
+        seq += ["E"] * d
+        yield [deco(t) for t in seq]
+
+
+def live_key_table():
+    """[lsct, lsdk, lyid] + 4CCs of the deciding keys + their codes, from psd_tools.constants.Tag"""
+    from psd_tools.constants import Tag
+
+    cc = lambda t: int.from_bytes(t.value, "big")
+    return [cc(Tag.SECTION_DIVIDER_SETTING), cc(Tag.NESTED_SECTION_DIVIDER_SETTING), cc(Tag.LAYER_ID)] + \
+        [cc(t) for t in _tags()[:N_DEC]] + list(range(N_DEC))
+
+
+def deciding_from_source():
+    """the deciding keys as the live code names them: Tag.X occurrences in PSDImage._init (source order, first
+    occurrence) with api.adjustments.TYPES spliced in where the code iterates it"""
+    import inspect
+    import re
+
+    from psd_tools.api import adjustments
+    from psd_tools.api.psd_image import PSDImage
+
+    src = inspect.getsource(PSDImage._init)
+    names = []
+    for m in re.finditer(r"Tag\.([A-Z0-9_]+)|adjustments\.TYPES", src):
+        n = m.group(1) or "*TYPES*"
+        if n not in names and n not in ("SECTION_DIVIDER_SETTING", "NESTED_SECTION_DIVIDER_SETTING"):
+            names.append(n)
+    out = []
+    for n in names:
+        if n == "*TYPES*":
+            out += [k.name for k in adjustments.TYPES.keys()]
+        else:
+            out.append(n)
+    return out
 
 
 # ------------------------------------------------------------------ independent oracle
@@ -473,9 +563,24 @@ def run():
                "random nestings up to depth 8 (some 40) incl. missing/extra ends; leaf records over the dispatch classes (systematic + random "
                "subsets of the 33 deciding keys x pixel_data_irrelevant); the record sequence of every fixture file; documents with records equal by "
                "value but distinct as objects (every balanced word with one name per role, twin pairs, random two-name documents), flatten compared by identity; "
-               "non-trivial = distinct sequence with at least one group or one deciding block")
-    if ck.coq_build(["theories/Tree/Corr.v", "theories/Properties/C08.v"]):
+               "documents written with PSD.write and read from the bytes by the container model (all words up to length 5/6, random nestings; real "
+               "lsct/lsdk/lyid payloads, INVERT/POSTERIZE/THRESHOLD blocks); non-trivial = distinct sequence with at least one group or one deciding block")
+    built = ck.coq_build(["theories/Tree/Corr.v", "theories/Tree/FileCorr.v", "theories/Properties/C08.v"])
+    if built:
         ck.collect_theorems("C08.v")
+    # the deciding keys, derived from the live code, against the model's numbering and 4-character codes
+    src_names = deciding_from_source()
+    want = DECIDING_NAMES[30:33] + DECIDING_NAMES[0:30]   # _init names the artboard keys first (inside the divider branch)
+    oksrc = src_names == want
+    ck.obligations.append(("registry:deciding keys named by PSDImage._init + adjustments.TYPES = model table", oksrc,
+                           "" if oksrc else "source order: %r" % src_names))
+    if built:
+        try:
+            tab = core.coq_nat_list(ck.coq_eval("keytable", "Eval vm_compute in c08_key_table.\n", FILE_IMPORTS))
+            okt = tab == live_key_table()
+            ck.obligations.append(("registry:4-character codes of Tree/File.v = constants.Tag", okt, "" if okt else "model %r" % tab))
+        except Exception as e:  # noqa
+            ck.obligations.append(("registry:4-character codes of Tree/File.v = constants.Tag", False, str(e)[:300]))
     # the registry the model's TABLE_TAGS mirrors
     from psd_tools.api import adjustments
     from psd_tools.api.layers import FillLayer
@@ -519,6 +624,23 @@ def run():
             save_reopen_check(ck, psd, descs, clips, "dup", names)
         ndup += 1
     ck.count("save-reopen-roundtrips", nreopen)
+    # real bytes: PSD.write -> the container model reads them -> abstraction -> tree model; implementation: PSDImage.open
+    file_cases = []
+    for descs in gen_file_docs(ck):
+        try:
+            bs, out = file_case(descs)
+        except Exception as e:  # noqa
+            ck.fail("file-write-raises", {"descs": [list(d[:3]) + [list(d[3])] for d in descs], "clips": None, "label": "file", "names": None},
+                    repr(e), "PSD.write succeeds")
+            continue
+        file_cases.append((list(bs), out))
+        exp = expected_tree(descs)
+        want = [4] if exp[0] == "extra-end" else None if exp[0] == "missing-end" else [0, len(exp[1])] + ser_expected(exp[1]) + [-7] + list(range(len(descs)))
+        if want is not None and out != want:
+            ck.fail("file-open-differs", {"descs": [list(d[:3]) + [list(d[3])] for d in descs], "clips": None, "label": "file", "names": None, "real": True},
+                    out, want)
+        ck.count("file:%s" % ("opened" if out[0] == 0 else "rejected"))
+        ck.nontriv(("file", bytes(bs)))
     ck.sample({"sequence": "".join(role(d) for d in cases["deep"][3][0][0]), "descs": cases["deep"][3][0][0][:6]})
 
     # fixtures: the real files
@@ -549,6 +671,9 @@ def run():
         bad = ck.correspond(label, "c08_out", IMPORTS, cases[label], lambda a: in_lit(a[0]), chunk=600)
         for i in bad[:3]:
             ck.notes.append("model/implementation differ on %s case %d: %s -> impl %r" % (label, i, in_lit(cases[label][i][0][0])[:300], cases[label][i][1][:60]))
+    bad = ck.correspond("file", "c08_file", FILE_IMPORTS, file_cases, zlist, chunk=60)
+    for i in bad[:3]:
+        ck.notes.append("file model/implementation differ on case %d: impl %r" % (i, file_cases[i][1][:60]))
     ck.assumptions += [
         "a record is abstracted to (identity, divider kinds, pixel_data_irrelevant, deciding keys): tagged-block payloads, names, "
         "masks and pixel data play no part in _init's tree construction (the implementation side uses dummy payloads for deciding keys)",
@@ -562,6 +687,12 @@ def replay(path):
     fl = json.load(open(path))
     inp = fl["input"]
     descs = [tuple(d[:3]) + (list(d[3]),) for d in inp["descs"]]
+    if inp.get("real"):
+        bs, out = file_case(descs)
+        print("roles   :", "".join(role(d) for d in descs), "| bytes:", len(bs))
+        print("observed:", out)
+        print("kind    :", fl["kind"], "| recorded expected:", fl["expected"])
+        return 1
     out, psd, records, channels = impl_open(descs, inp.get("clips"), inp.get("names"))
     print("roles   :", "".join(role(d) for d in descs), "| names:", inp.get("names"))
     if psd is not None:
